@@ -647,7 +647,8 @@ func (p *rparser) nud(t rtoken) *rnode {
 		e := p.expression(rbp[rtNot])
 		return &rnode{kind: rnNot, kids: []*rnode{e}}
 	case rtMinus, rtPlus:
-		e := p.expression(rbp[t.typ])
+		// a unary sign binds tighter than every binary operator (C10's wording)
+		e := p.expression(rbp[rtMultiply])
 		op := "-"
 		if t.typ == rtPlus {
 			op = "+"
